@@ -215,3 +215,40 @@ Proof.
   intros Hb. unfold r_element_from_bytes. destruct (length bs =? 32)%nat; [|discriminate].
   destruct (decompress K bs) as [Q|] eqn:E; cbn [of_option_err]; [|discriminate]. intro H. injection H as <-. apply decompress_canonical; assumption.
 Qed.
+
+(* ---------------------------------------------------------------- the 30-byte plaintext embedding (Ctx::encode / decode) *)
+Lemma first_some_spec {A C} (f : A -> option C) l c : first_some f l = Some c -> exists a, In a l /\ f a = Some c.
+Proof.
+  induction l as [|a r IH]; cbn [first_some]; [discriminate|].
+  destruct (f a) as [c'|] eqn:E.
+  - intro H. injection H as <-. exists a. split; [now left | exact E].
+  - intro H. destruct (IH H) as (a' & I & Ea). exists a'. split; [now right | exact Ea].
+Qed.
+
+Lemma zseq_range n z : In z (zseq n) -> 0 <= z < Z.of_nat n.
+Proof. unfold zseq. rewrite in_map_iff. intros (k & <- & Hk). apply in_seq in Hk. lia. Qed.
+
+(* whatever element encode returns for a 30-byte plaintext decodes back to that plaintext, and is a valid curve point:
+   the embedding is invertible on its domain of success, hence injective *)
+Theorem r_encode_decode K data P : bytes_ok data -> length data = 30%nat ->
+  r_encode K data = Ok P -> r_decode K P = data /\ valid P.
+Proof.
+  intros Hd Ld. unfold r_encode.
+  destruct (first_some _ (zseq 64)) as [Q|] eqn:E1; cbn [of_option_err]; [|discriminate].
+  intro H. injection H as <-.
+  destruct (first_some_spec _ _ _ E1) as (j & Ij & E2).
+  destruct (first_some_spec _ _ _ E2) as (i & Ii & E3).
+  apply zseq_range in Ij. apply zseq_range in Ii.
+  assert (Hb : bytes_ok ((2 * i) :: data ++ [j])).
+  { constructor; [lia|]. apply bytes_ok_app. split; [exact Hd|]. constructor; [lia|constructor]. }
+  split; [|exact (decompress_valid K _ _ E3)].
+  unfold r_decode. rewrite (decompress_canonical K _ _ Hb E3). cbn [skipn].
+  rewrite firstn_app, Ld, Nat.sub_diag, firstn_O, app_nil_r. rewrite <- Ld. apply firstn_all.
+Qed.
+
+Corollary r_encode_injective K d1 d2 P : bytes_ok d1 -> bytes_ok d2 -> length d1 = 30%nat -> length d2 = 30%nat ->
+  r_encode K d1 = Ok P -> r_encode K d2 = Ok P -> d1 = d2.
+Proof.
+  intros H1 H2 L1 L2 E1 E2. destruct (r_encode_decode K d1 P H1 L1 E1) as [<- _].
+  destruct (r_encode_decode K d2 P H2 L2 E2) as [D _]. exact D.
+Qed.
